@@ -54,6 +54,10 @@ Definition registry := list (string * nat).       (* _backends_map: scheme -> ba
 Fixpoint reg_lookup (reg : registry) (s : string) : option nat :=
   match reg with [] => None | (k, b) :: r => if String.eqb k s then Some b else reg_lookup r s end.
 
+(* register_backend: `_backends_map[scheme] = backend_class` -- a later registration for the same scheme replaces
+   the earlier one (the newest entry is found first) *)
+Definition register (reg : registry) (s : string) (b : nat) : registry := (s, b) :: reg.
+
 Definition get_backend (reg : registry) (url : string) : bexn + nat :=
   match scheme_of url with
   | None => inl BValueError
@@ -146,6 +150,34 @@ Definition update (reg : registry) (root : tree) (p : path) (recursive : bool) :
       Some (then_ first (if recursive then children_direct reg KUpdate n np else nil_out))
   | _ => None
   end.
+
+(* ---- a process: registrations interleaved with commit()/update() calls on the same tree --------------------- *)
+
+Inductive dop : Type :=
+  | ORegister (s : string) (b : nat)
+  | OCommit (p : path)
+  | OUpdate (p : path) (recursive : bool).
+
+(* the outcomes of the commit/update calls of the sequence, in order *)
+Fixpoint exec (reg : registry) (root : tree) (ops : list dop) : list (option outcome) :=
+  match ops with
+  | [] => []
+  | ORegister s b :: r => exec (register reg s b) root r
+  | OCommit p :: r => commit reg root p :: exec reg root r
+  | OUpdate p rc :: r => update reg root p rc :: exec reg root r
+  end.
+
+(* specification: the registrations of a sequence in chronological order, and the backend registered LAST for a
+   scheme (cur = what was registered before the sequence) *)
+Definition regs_of (ops : list dop) : list (string * nat) :=
+  flat_map (fun o => match o with ORegister s b => [(s, b)] | _ => [] end) ops.
+Fixpoint last_registered (h : list (string * nat)) (s : string) (cur : option nat) : option nat :=
+  match h with
+  | [] => cur
+  | (k, b) :: r => last_registered r s (if String.eqb k s then Some b else cur)
+  end.
+Definition reg_after (reg : registry) (h : list (string * nat)) : registry :=
+  fold_left (fun r kb => register r (fst kb) (snd kb)) h reg.
 
 (* ---- specification side -------------------------------------------------------------------------------- *)
 
